@@ -772,6 +772,46 @@ def value_mismatch(e, d, wrt, rng, tries=10, want=3):
             return f"at {dict((str(k), str(v)) for k, v in env.items())}: derivative {r}, differentiated tree gives {g} ({N.name})"
         if good >= want:
             break
+    # integer grid INCLUDING zeros: points where a base vanishes / an exponent is a small positive
+    # integer are in the domain (the reference differentiates a ** k as a k-fold product there);
+    # the differentiated tree must be evaluable at every point of the domain
+    if any(isinstance(s, p.Power) and not isinstance(s.exponent, (int, float))
+           for s in dual.subterms(e)):
+        for t in range(8):
+            env = {k: Fraction(rng.choice([0, 0, 1, 2, 3, -1, -2])) for k in keys}
+            try:
+                ref = dual.dual(e, env, wrt, N)
+            except (dual.OutOfDomain, ZeroDivisionError, OverflowError):
+                continue
+            except dual.NotInFragment:
+                return None
+            # the tree is evaluated with plain Python numbers (exact ints at these points) by the
+            # reference interpreter of C02, not by interval arithmetic
+            import math as _math
+
+            from ..oracles.pyeval import pyeval
+            penv = {"math": _math, "log": _math.log}
+            for key, val in env.items():
+                iv = int(val)
+                if key[0] == "var":
+                    penv[key[1]] = iv
+                else:
+                    penv.setdefault(key[1], {})[key[2]] = iv
+            r = ref.d if exact else ref.d.v
+            try:
+                gv = pyeval(d, penv)
+            except (ZeroDivisionError, ValueError):
+                return (f"at {dict((str(k), str(v)) for k, v in env.items())}: the function is "
+                        f"differentiable (derivative {r}) but the differentiated tree cannot be "
+                        f"evaluated there")
+            except Exception:
+                continue
+            try:
+                ok = abs(complex(gv) - complex(r)) <= 1e-9 * max(1.0, abs(complex(r)))
+            except Exception:
+                continue
+            if not ok:
+                return f"at {dict((str(k), str(v)) for k, v in env.items())}: derivative {r}, differentiated tree gives {gv}"
     return None
 
 
@@ -827,12 +867,99 @@ def check_derivative(e, v_expr, v_arg, cfg, pl, mapper=None):
         key = "wrong-derivative-" + kind_of(t)
         if key == "wrong-derivative-Call:copysign":
             key = "copysign-first-argument"
+        # is a (truthy) wrapper around a vanishing derivative the whole cause?  The SAME tree with
+        # those wrappers folded to the 0 they stand for must then be right.
+        try:
+            dt = run(t)
+            kinds = zero_wrapper_kinds(dt)
+            if kinds and value_mismatch(t, strip_zero_wrappers(dt), wrt, random.Random(1),
+                                        tries=16, want=6) is None:
+                key = "vanishing-derivative-wrapped-" + "+".join(kinds)
+                msg += (f"; the differentiated tree {show(dt)} keeps a truthy wrapper "
+                        f"({', '.join(kinds)}) around a vanishing derivative, so the rule did "
+                        f"not drop the term")
+        except RecursionError:
+            raise
+        except Exception:
+            pass
         return Failure(key, f"d/d{show(v_expr)} of {show(t)}: {msg}", pl)
     # the derivative is right, but can it be evaluated where the input can?
     if uses_bare_log(d) and not uses_bare_log(e):
         return Failure("power-rule-unqualified-log",
                        f"derivative {show(d)} of {show(e)} calls the free variable `log` (not math.log)", pl)
     return None
+
+
+def _const_zero(t):
+    return type(t) in (int, bool, float, complex) and t == 0
+
+
+def _vanishing(t):
+    """0 / False / 0.0, or a wrapper (CommonSubexpression, If with both branches) around such"""
+    if _const_zero(t):
+        return True
+    if isinstance(t, p.CommonSubexpression):
+        return _vanishing(t.child)
+    if isinstance(t, p.If):
+        return _vanishing(t.then) and _vanishing(t.else_)
+    return False
+
+
+def zero_wrapper_kinds(d):
+    """sorted class names of the INNERMOST truthy wrappers around literal zeros in the tree `d`:
+    `CommonSubexpression(0)`, `If(c, 0, 0)` (a wrapper around a wrapper is the inner one's doing)"""
+    kinds = set()
+
+    def innermost(t):
+        if isinstance(t, p.CommonSubexpression):
+            if _const_zero(t.child):
+                kinds.add("CommonSubexpression")
+            else:
+                innermost(t.child)
+        elif isinstance(t, p.If):
+            if _const_zero(t.then) and _const_zero(t.else_):
+                kinds.add("If")
+            for b in (t.then, t.else_):
+                if not _const_zero(b):
+                    innermost(b)
+
+    seen = []
+    for t in reversed(dual.subterms(d)):          # outermost first
+        if isinstance(t, (p.CommonSubexpression, p.If)) and _vanishing(t) \
+                and not any(t is s_ for s_ in seen):
+            innermost(t)
+            seen.extend(dual.subterms(t))
+    return sorted(kinds)
+
+
+def strip_zero_wrappers(d):
+    """`d` with every wrapper around vanishing derivatives replaced by the 0 it stands for, and the
+    sums / products / quotients above it folded the way the rules fold a literal 0 (a product with
+    a factor 0 is 0, a sum drops it, 0/g is 0).  Nothing else is simplified."""
+    def go(t):
+        if not isinstance(t, p.Expression):
+            return t
+        if _vanishing(t):
+            return 0
+        if isinstance(t, p.Sum):
+            cs = [c for c in map(go, t.children) if not _const_zero(c)]
+            return 0 if not cs else cs[0] if len(cs) == 1 else p.Sum(tuple(cs))
+        if isinstance(t, p.Product):
+            cs = [go(c) for c in t.children]
+            return 0 if any(_const_zero(c) for c in cs) else p.Product(tuple(cs))
+        if isinstance(t, p.Quotient):
+            n, dn = go(t.numerator), go(t.denominator)
+            return 0 if _const_zero(n) else p.Quotient(n, dn)
+        if isinstance(t, p.Power):
+            return p.Power(go(t.base), go(t.exponent))
+        if isinstance(t, p.Call):
+            return p.Call(t.function, tuple(go(a) for a in t.parameters))
+        if isinstance(t, p.CommonSubexpression):
+            return p.CommonSubexpression(go(t.child), t.prefix, t.scope)
+        if isinstance(t, p.If):
+            return p.If(t.condition, go(t.then), go(t.else_))
+        return t
+    return go(d)
 
 
 def hash_str(s):
@@ -908,6 +1035,37 @@ def probes():
         res.append(("power-rule-unqualified-log", uses_bare_log(d), f"d/dy x**y -> {d!r}"))
     except Exception as ex:
         res.append(("power-rule-unqualified-log", False, f"raises {type(ex).__name__}"))
+    # repaired (status "fixed": a VIOLATION if it returns): the CSE handler wrapped a vanishing
+    # child derivative, `CSE(0)` is truthy, so the power rule kept its log(f) term
+    cy = p.CommonSubexpression(y)
+    for v, what in (("x", "the plain power rule CSE(y)*x**(CSE(y) + -1)"), (a1, "0")):
+        key = "vanishing-derivative-wrapped-CommonSubexpression"
+        try:
+            d = run_differentiate(p.Power(x, cy), v, "none")
+        except Exception as ex:
+            res.append((key, True, f"d/d{v} x**CSE(y) raises {type(ex).__name__}: {ex}"))
+            continue
+        bad = uses_bare_log(d) or "CommonSubexpression" in zero_wrapper_kinds(d)
+        if not bad and v == "x":
+            # ... and the tree can be evaluated at x <= 0 for an integer y >= 1
+            from ..oracles.pyeval import pyeval
+            try:
+                bad = pyeval(d, {"x": -2, "y": 3}) != 12 or pyeval(d, {"x": 0, "y": 1}) != 1
+            except Exception:
+                bad = True
+        if not bad and v is a1:
+            bad = not _const_zero(d)
+        res.append((key, bad, f"d/d{v} x**CSE(y) -> {show(d)}; expected {what} (no log(x) term: "
+                              f"the exponent does not depend on {v})"))
+    # known: `map_if` keeps `If(c, 0, 0)` around vanishing branch derivatives (truthy as well)
+    cond = p.Comparison(y, "<", 1)
+    try:
+        d = run_differentiate(p.Power(x, p.If(cond, 2, 3)), "x", "discontinuous")
+        res.append(("vanishing-derivative-wrapped-If",
+                    uses_bare_log(d) and zero_wrapper_kinds(d) == ["If"],
+                    f"d/dx x**If(y < 1, 2, 3) -> {show(d)}"))
+    except Exception as ex:
+        res.append(("vanishing-derivative-wrapped-If", False, f"raises {type(ex).__name__}"))
     return res
 
 
@@ -940,8 +1098,8 @@ PROP = Prop(
     assumptions=["the meaning of math.<f> is the real function f; floating-point evaluation of the "
                  "derivative tree is not modelled (the search oracle compares floats with relative "
                  "tolerance 1e-6 plus running rounding-error bounds)"],
-    level_text="Lean theorem diff_hasDerivAt (unbounded: all expressions, variables and subscripted variables, all three settings): whenever the modelled differentiator returns a tree d for e, and the point lies in the domain of e (denominators nonzero, log arguments and bases of non-integer powers positive, cos nonzero under tan, arguments of fabs/copysign nonzero, conditions locally constant), the real function t -> eval(e)[v:=t] has derivative eval(d) at that point (Mathlib HasDerivAt). diff_refuses: fabs, copysign, If and unknown functions with arguments are refused unless the setting allows them. diff_var_absent: a variable that does not occur gives a tree that evaluates to 0. Tied to differentiate()/DifferentiationMapper by (1) T-gen: the function table (derivative expressions, gates, error classes), the branch chains of map_quotient/map_power, the If gate, the leaf rules and a shape descriptor of every handler are re-read from the SOURCE on every run (lean/PV/Generated/Diff.lean) and diff_eq_table_current / handler_shapes_current prove that this table, interpreted, is the model the theorems are about; (2) correspondence on derivative trees and error kinds, also through the interpreted regenerated table and by running the real map_quotient/map_power with prescribed child derivatives; independent dual-number oracle on the real code.",
-    level_note="Known findings kept as counterexample theorems: copysign differentiated w.r.t. its first argument gives 0; log of an integer constant other than 1 crashes (AttributeError from pymbolic.rational); the power rule emits the free variable `log` instead of math.log. `If` only under the hypothesis that the condition is locally constant. The CSE cache is modelled (diffC) and proved irrelevant when == identifies no two different CSE nodes; float results of int/int true division are outside the tree model (model abstains).",
+    level_text="Lean theorem diff_hasDerivAt (unbounded: all expressions, variables and subscripted variables, all three settings): whenever the modelled differentiator returns a tree d for e, and the point lies in the domain of e (denominators nonzero, log arguments and bases of non-integer powers positive, cos nonzero under tan, arguments of fabs/copysign nonzero, conditions locally constant), the real function t -> eval(e)[v:=t] has derivative eval(d) at that point (Mathlib HasDerivAt). diff_refuses: fabs, copysign, If and unknown functions with arguments are refused unless the setting allows them. diff_var_absent: a variable that does not occur gives a tree that evaluates to 0; diff_var_absent_literal: it is the literal 0 for If-free trees (the repaired CSE handler answers 0 for a vanishing child derivative); diff_pow_absent_exponent / diff_pow_cse_exponent: an exponent that does not depend on the variable gives the plain power rule g*f**(g-1)*f' without a log term. Tied to differentiate()/DifferentiationMapper by (1) T-gen: the function table (derivative expressions, gates, error classes), the branch chains of map_quotient/map_power, the If gate, the CSE handler's is_zero test with the literal it answers, the leaf rules and a shape descriptor of every handler are re-read from the SOURCE on every run (lean/PV/Generated/Diff.lean) and diff_eq_table_current / handler_shapes_current prove that this table, interpreted, is the model the theorems are about; (2) correspondence on derivative trees and error kinds, also through the interpreted regenerated table and by running the real map_quotient/map_power with prescribed child derivatives; independent dual-number oracle on the real code.",
+    level_note="Known findings kept as counterexample theorems: copysign differentiated w.r.t. its first argument gives 0; log of an integer constant other than 1 crashes (AttributeError from pymbolic.rational); the power rule emits the free variable `log` instead of math.log; map_if keeps If(c, 0, 0) around vanishing branch derivatives (truthy, so the power rule keeps a log term: if_zero_wrapped_cex); repaired and replayed on the table: the CSE handler wrapped a vanishing child derivative (cse_zero_wrapped_table_cex). `If` only under the hypothesis that the condition is locally constant. The CSE cache is modelled (diffC) and proved irrelevant when == identifies no two different CSE nodes; float results of int/int true division are outside the tree model (model abstains).",
     technique="Lean 4 + Mathlib analysis: mutual structural induction over the differentiator model with soundness lemmas for the overloaded operators over the reals; differential correspondence; forward-mode dual numbers over Fraction / floats with running error bounds",
     design_ref="DESIGN.md §4 C10",
 )
